@@ -149,14 +149,14 @@ def check(chk: Check) -> None:
                             'len(x) >= 10000, and its failing side raises ParserError and does nothing else', floor=1)
     R2 = chk.rule('C03.R2', 'guard dominates every in-place growth: append / insert / setdefault / subscript store / '
                             'compound subscript store / in-place + or * on an argument-derived container is preceded on '
-                            'every path by a passed size check of the same object, with no growth in between', floor=4)
+                            'every path by a passed size check of the same object, with no growth in between', floor=3)
     R3 = chk.rule('C03.R3', 'no amplifier without a cap: every primitive whose result can be longer than each of its '
                             'inputs (sequence + and *, their in-place forms, join / replace / text-of-value, '
                             'split / findall, extend / update) has its result checked against the cap before it is '
                             'stored or returned', floor=0)
     R4 = chk.rule('C03.R4', 'the size check comes first: in every element-adding builtin no keyed access, method call or '
                             'hand-over of the container precedes its size check (a host mapping\'s __getitem__/__missing__ may '
-                            'insert; a failed operation must leave the container unchanged)', floor=4)
+                            'insert; a failed operation must leave the container unchanged)', floor=3)
     chk.decided += ['clause 2 of the statement (element-adding operations at the cap): guard comparison, constant, failure '
                     'class and dominance over every +1 growth path (R1, R2)',
                     'clause 1 as an inductive invariant: inventory of every reachable primitive that can exceed '
